@@ -307,11 +307,14 @@ def gen_abf(r, k, T):
 
 # ------------------------------------------------------------------------------------------------ metadynamics
 def gen_meta(r, k, T):
+    # the first four cases of every run: hills pending when the state is written (gridsUpdateFrequency does not
+    # divide newHillFrequency), keepHills on and off, values well inside the grid (no help from hills_off_grid)
+    forced = k < 4
     nv = r.choice([1, 1, 2])
-    use_grids = r.random() < 0.8
+    use_grids = True if forced else r.random() < 0.8
     tags = ["meta", "grids" if use_grids else "nogrids"]
     cfg = []
-    nice = r.random() < 0.7
+    nice = True if forced else r.random() < 0.7
     hw = r.choice([1.0, 2.0, 2.5])
     M = {"vars": [], "W": r.choice([0.125, 0.5, 1.0]), "hw": hw, "use_grids": use_grids, "keep": False, "wt": False,
          "bt": 300.0}
@@ -319,7 +322,7 @@ def gen_meta(r, k, T):
         w = r.choice([0.5, 1.0])
         nx = r.randint(6, 12)
         lo = V.dyadic(r, -4, -1, bits=2) if nice else r.choice([-3.123456789, -2.0 / 3.0 - 2])
-        expand = use_grids and nice and r.random() < 0.25
+        expand = use_grids and nice and not forced and r.random() < 0.25
         cfg += cv_block(i, width=w, lower=lo, upper=lo + nx * w, extra=["expandBoundaries on"] if expand else [])
         M["vars"].append({"w": w, "lower": lo, "upper": lo + nx * w, "nx": nx, "sigma": w * hw / 2.0, "expand": expand})
         if expand and "expandBoundaries" not in tags:
@@ -334,15 +337,17 @@ def gen_meta(r, k, T):
     if not use_grids:
         B.append("  useGrids off")
     else:
-        if r.random() < 0.4:
-            g = r.choice([1, 2, 4, 6])
+        if forced or r.random() < 0.4:
+            g = r.choice([4, 5, 6]) if forced else r.choice([1, 2, 4, 6])
+            if forced and freq % g == 0:
+                g = freq + 3
             B.append("  gridsUpdateFrequency %d" % g)
             tags.append("gfreq=%s" % ("freq" if g == freq else "other"))
             M["gfreq"] = g
             # hills deposited on a step that is not a multiple of gridsUpdateFrequency wait, unprojected, for the
             # next such step: writing the state projects them at once
             pending = (freq % g) != 0
-    if use_grids and r.random() < 0.4:      # keepHills is only parsed with grids
+    if (forced and k % 2 == 0) or (not forced and use_grids and r.random() < 0.4):      # keepHills is only parsed with grids
         B.append("  keepHills on")
         tags.append("keepHills")
         M["keep"] = True
@@ -352,10 +357,14 @@ def gen_meta(r, k, T):
         tags.append("wt")
         M["wt"], M["bt"] = True, bt
     B.append("}")
-    p_out = r.choice([0.0, 0.0, 0.2])
+    p_out = 0.0 if forced else r.choice([0.0, 0.0, 0.2])
     if p_out:
         tags.append("excursions")
     pos = walk(r, T, nv, lo=-3.0, hi=1.0, bits=3)
+    if forced:
+        tags.append("forced-pending")
+        mid = [v["lower"] + v["nx"] * v["w"] / 2 for v in M["vars"]]
+        pos = [[m + V.dyadic(r, -1.0, 1.0, bits=3) for m in mid] for _ in range(T)]
     if p_out:
         for t in range(T):
             if r.random() < p_out:
@@ -397,12 +406,19 @@ def gen_histrestraint(r, k, T):
     cfg = ["colvar {", "  name v0", "  distancePairs {", "    group1 { atomNumbers 1 2 }", "    group2 { atomNumbers 3 4 }",
            "  }", "}"]
     ref = [r.choice([0.0, 0.125, 0.25, 0.5]) for _ in range(8)]
+    if sum(ref) == 0:
+        ref[3] = 0.5
+    sig = r.choice([0.5, 1.0])
+    kk = r.choice([1.0, 2.0])
     B = ["histogramRestraint {", "  name hr", "  colvars v0", "  lowerBoundary 0.0", "  upperBoundary 8.0", "  width 1.0",
-         "  gaussianSigma %r" % r.choice([0.5, 1.0]), "  refHistogram " + vec(ref), "  forceConstant %r" % r.choice([1.0, 2.0]),
+         "  gaussianSigma %r" % sig, "  refHistogram " + vec(ref), "  forceConstant %r" % kk,
          "  outputEnergy on", "}"]
+    # colvarbias_restraint_histogram::init: the reference is divided by its integral unless that is 1 within 1e-3
+    integral = sum(ref) * 1.0
+    nref = ref if abs(integral - 1.0) <= 1.0e-3 else [x / integral for x in ref]
     pos = walk(r, T, na, lo=-4.0, hi=4.0, bits=3)
     return {"fam": "histrestraint", "tags": ["histogramRestraint"], "sigtags": [], "natoms": na, "config": cfg + B, "it0": 0,
-            "pos": pos, "cvnames": []}
+            "pos": pos, "cvnames": ["v0"], "model": {"k": kk, "sigma": sig, "lower": 0.0, "width": 1.0, "ref": nref}}
 
 
 # ------------------------------------------------------------------------------------------------ eABF (ABF on an extended variable, CZAR)
@@ -410,23 +426,35 @@ def gen_eabf(r, k, T):
     w = r.choice([0.5, 1.0])
     nx = r.randint(3, 6)
     lo = V.dyadic(r, -2, 0, bits=2)
-    ex = ["extendedLagrangian on", "extendedFluctuation %r" % r.choice([0.5, 0.25]),
-          "extendedTimeConstant %r" % r.choice([50.0, 100.0])]
-    setup = ["dt 1.0", "temperature 300.0", "samestep 0", "includecv 1"]
+    tol = r.choice([0.5, 0.25])
+    period = r.choice([50.0, 100.0])
+    temp, dt = 300.0, 1.0
+    ex = ["extendedLagrangian on", "extendedFluctuation %r" % tol, "extendedTimeConstant %r" % period]
+    setup = ["dt %r" % dt, "temperature %r" % temp, "samestep 0", "includecv 1"]
     tags = ["eabf"]
+    X = {"dt": dt, "k": KB * temp / (tol * tol),
+         "mass": (KB * temp * period * period) / (4.0 * math.pi * math.pi * tol * tol),
+         "langevin": False, "gf": 1.0, "sigma": 0.0, "rlo": False, "lo": 0.0, "rup": False, "up": 0.0, "rnd": 0.0}
     if r.random() < 0.4:
-        ex += ["extendedLangevinDamping %r" % r.choice([1.0, 10.0])]
-        setup.append("gauss %r" % r.choice([0.5, -1.25]))
+        damp = r.choice([1.0, 10.0])
+        g = r.choice([0.5, -1.25])
+        ex += ["extendedLangevinDamping %r" % damp]
+        setup.append("gauss %r" % g)
         tags.append("langevin")
+        gamma = damp * 1.0e-3
+        X.update({"langevin": True, "gf": math.exp(-1.0 * dt * gamma), "rnd": g,
+                  "sigma": math.sqrt((1.0 - math.exp(-2.0 * gamma * dt * 1.0)) * X["mass"] * KB * temp)})
     else:
         ex += ["extendedLangevinDamping 0.0"]
     cfg = cv_block(0, width=w, lower=lo, upper=lo + nx * w, extra=ex)
     full = r.randint(1, 4)
-    B = ["abf {", "  name a", "  colvars v0", "  fullSamples %d" % full, "}"]
+    mn = r.randint(0, full - 1) if full > 1 else 0
+    B = ["abf {", "  name a", "  colvars v0", "  fullSamples %d" % full, "  minSamples %d" % mn, "}"]
     start = [lo + nx * w / 2]
     pos = walk(r, T, 1, lo=lo, hi=lo + nx * w, bits=5, stay=0.1, start=start)
+    M = {"x": X, "lower": lo, "width": w, "nx": nx, "full": full, "min": mn}
     return {"fam": "eabf", "tags": tags, "sigtags": [], "natoms": 1, "setup": setup, "config": cfg + B, "it0": r.choice([0, 0, 3]),
-            "pos": pos, "ef": forces(r, T, 1), "show_tf": True, "tf_lagged": True}
+            "pos": pos, "ef": forces(r, T, 1), "show_tf": True, "tf_lagged": True, "model": M}
 
 
 # ------------------------------------------------------------------------------------------------ analysis windows
@@ -437,4 +465,23 @@ def gen_runave(r, k, T):
             "it0": 0, "pos": walk(r, T, 1, lo=-4, hi=4, bits=3), "prefix_per_run": True}
 
 
-FAMILIES = {"runave": gen_runave, "histrestraint": gen_histrestraint, "eabf": gen_eabf, "opes": gen_opes, "restraint": gen_restraint, "histogram": gen_histogram, "extlag": gen_extlag, "abmd": gen_abmd, "alb": gen_alb, "abf": gen_abf, "meta": gen_meta}
+# ------------------------------------------------------------------------------------------------ several objects
+def gen_multi(r, k, T):
+    """two or three variables and four to five biases of different kinds in one state file"""
+    cfg = []
+    cfg += cv_block(0, width=1.0, lower=-4.0, upper=4.0)
+    cfg += cv_block(1, width=0.5, lower=-3.0, upper=3.0)
+    tc = V.dyadic(r, -2, 2, bits=2)
+    B = ["harmonic {", "  name r", "  colvars v0", "  forceConstant 2.0", "  centers %r" % V.dyadic(r, -2, 2, bits=2),
+         "  targetCenters %r" % tc, "  targetNumSteps %d" % r.choice([4, 8]), "  outputAccumulatedWork on", "}",
+         "histogram {", "  name h", "  colvars v0 v1", "}",
+         "abmd {", "  name a", "  colvars v1", "  forceConstant 1.0", "  stoppingValue 2.5", "}",
+         "metadynamics {", "  name m", "  colvars v1", "  hillWeight 0.5", "  newHillFrequency 2", "  hillWidth 2.0",
+         "  keepHills %s" % r.choice(["on", "off"]), "}",
+         "harmonicWalls {", "  name w", "  colvars v0", "  lowerWalls -3.0", "  upperWalls 3.0", "  forceConstant 1.0",
+         "  targetForceConstant 4.0", "  targetNumSteps 3", "  targetNumStages 2", "}"]
+    return {"fam": "multi", "tags": ["multi", "2cv+5biases"], "sigtags": [], "natoms": 2, "setup": ["temperature 300.0"],
+            "config": cfg + B, "it0": r.choice([0, 4]), "pos": walk(r, T, 2, lo=-2.5, hi=2.5, bits=3), "shuffle": True}
+
+
+FAMILIES = {"multi": gen_multi, "runave": gen_runave, "histrestraint": gen_histrestraint, "eabf": gen_eabf, "opes": gen_opes, "restraint": gen_restraint, "histogram": gen_histogram, "extlag": gen_extlag, "abmd": gen_abmd, "alb": gen_alb, "abf": gen_abf, "meta": gen_meta}
